@@ -1,6 +1,7 @@
 package main
 
 import (
+	"regexp"
 	"strings"
 )
 
@@ -82,7 +83,7 @@ func lineSymbols(line string) []string {
 }
 
 // sliceQuery returns the lines of the prefix relevant to the goal.
-func sliceLines(lines []string, goalText string) []string {
+func sliceLines(lines []string, goalText string, defs map[string]string) []string {
 	type info struct {
 		kind string // declare | define | assert
 		name string
@@ -97,6 +98,11 @@ func sliceLines(lines []string, goalText string) []string {
 			k := strings.IndexByte(rest, ' ')
 			name := rest[:k]
 			infos[i] = info{"define", name, lineSymbols(rest[k:])}
+			definedAt[name] = i
+		case strings.HasPrefix(l, "(assert (= ") && defEqName(l, defs) != "":
+			// the defining equation of a named array merge: directional, like a define-fun
+			name := defEqName(l, defs)
+			infos[i] = info{"define", name, lineSymbols(l)}
 			definedAt[name] = i
 		case strings.HasPrefix(l, "(assert "):
 			infos[i] = info{"assert", "", lineSymbols(l)}
@@ -175,7 +181,7 @@ func (c *SMTCtx) SlicedQuery(mark int, hyps []Term, goal Term) (string, int, int
 		gt.WriteByte(' ')
 	}
 	gt.WriteString(goal.S)
-	kept := sliceLines(c.lines[:mark], gt.String())
+	kept := sliceLines(c.lines[:mark], gt.String(), c.defs)
 	var b strings.Builder
 	b.WriteString(preamble)
 	for _, l := range kept {
@@ -189,4 +195,131 @@ func (c *SMTCtx) SlicedQuery(mark int, hyps []Term, goal Term) (string, int, int
 	}
 	b.WriteString("(assert (not " + goal.S + "))\n(check-sat)\n")
 	return b.String(), len(kept), mark
+}
+
+// Path filter: an assumption guarded by the reach term of a block (or of an edge) that cannot lie on any path to the
+// obligation's own program point says nothing about that point. The guards that can are exactly those that occur
+// (transitively, through definitions) in the obligation's hypotheses. Dropping the others is sound for "unsat".
+var guardRe = regexp.MustCompile(`^\(assert \(=> ([RE][0-9]+\.[0-9]+![0-9]+) `)
+
+func (c *SMTCtx) pathFilter(lines []string, hyps []Term) []string {
+	closure := map[string]bool{}
+	var work []string
+	for _, h := range hyps {
+		for _, s := range lineSymbols(h.S) {
+			if !closure[s] {
+				closure[s] = true
+				work = append(work, s)
+			}
+		}
+	}
+	if len(work) == 0 {
+		return lines
+	}
+	for len(work) > 0 {
+		s := work[len(work)-1]
+		work = work[:len(work)-1]
+		if d, ok := c.defs[s]; ok {
+			for _, t := range lineSymbols(d) {
+				if !closure[t] {
+					closure[t] = true
+					work = append(work, t)
+				}
+			}
+		}
+	}
+	out := make([]string, 0, len(lines))
+	offPath := func(term string) bool {
+		for _, sym := range lineSymbols(term) {
+			if reachSymRe.MatchString(sym) && !closure[sym] {
+				return true
+			}
+		}
+		return false
+	}
+	tagOff := map[string]bool{}
+	for i, l := range lines {
+		if tag, ok := c.tagAt[i]; ok && strings.HasPrefix(l, "(assert ") && defEqName2(l, c.defs) == "" {
+			// emitted while a block off every path to the obligation was executed (facts about that block's own values)
+			off, seen := tagOff[tag]
+			if !seen {
+				off = offPath(tag)
+				tagOff[tag] = off
+			}
+			if off {
+				continue
+			}
+		}
+		if m := guardRe.FindStringSubmatch(l); m != nil && !closure[m[1]] {
+			continue
+		}
+		if strings.HasPrefix(l, "(assert (=> (") {
+			// compound guard: (=> (and E.. cond) body) - off the path as soon as one reach/edge symbol of it is
+			if args, ok := splitApp(l[len("(assert "):len(l)-1], "=>"); ok && len(args) == 2 {
+				drop := false
+				for _, sym := range lineSymbols(args[0]) {
+					if reachSymRe.MatchString(sym) && !closure[sym] {
+						drop = true
+						break
+					}
+				}
+				if drop {
+					continue
+				}
+			}
+		}
+		out = append(out, l)
+	}
+	return out
+}
+
+var reachSymRe = regexp.MustCompile(`^[RE][0-9]+\.[0-9]+![0-9]+$`)
+
+// PathQuery renders the query without the assumptions of blocks off every path to the obligation (optionally also
+// cone-of-influence sliced).
+func (c *SMTCtx) PathQuery(mark int, hyps []Term, goal Term, cone bool) (string, int, int) {
+	lines := c.pathFilter(c.lines[:mark], hyps)
+	if cone {
+		var gt strings.Builder
+		for _, h := range hyps {
+			gt.WriteString(h.S)
+			gt.WriteByte(' ')
+		}
+		gt.WriteString(goal.S)
+		lines = sliceLines(lines, gt.String(), c.defs)
+	}
+	var b strings.Builder
+	b.WriteString(preamble)
+	for _, l := range lines {
+		b.WriteString(l)
+		b.WriteByte('\n')
+	}
+	for _, h := range hyps {
+		if !h.IsTrue() {
+			b.WriteString("(assert " + h.S + ")\n")
+		}
+	}
+	b.WriteString("(assert (not " + goal.S + "))\n(check-sat)\n")
+	return b.String(), len(lines), mark
+}
+
+// defEqName: for a line "(assert (= NAME body))" where NAME is a name introduced by Define, NAME; else "".
+func defEqName(l string, defs map[string]string) string {
+	rest := l[len("(assert (= "):]
+	k := strings.IndexByte(rest, ' ')
+	if k <= 0 {
+		return ""
+	}
+	name := rest[:k]
+	if _, ok := defs[name]; ok {
+		return name
+	}
+	return ""
+}
+
+func defEqName2(l string, defs map[string]string) string {
+	if !strings.HasPrefix(l, "(assert (= ") {
+		return ""
+	}
+	return defEqName(l, defs)
 }
